@@ -96,6 +96,12 @@ def generate(seed: int, tier: str = "quick") -> dict:
         program += _gen_program(rp, s, markets, nb, close_idx, lazy=rp.random() < 0.12)
         if s in noisy:
             program += _gen_noise(rf, s, markets, nb, close_idx)
+    # a strategy that fails: an exception escaping its bar loop. Its own run is lost either way; the others' must not be
+    failing = None
+    if rf.random() < 0.22:
+        failing = rf.randrange(ns)
+        b = rf.randint(-1, nb - 1)
+        program.append({"s": failing, "bar": b, "phase": "initialize" if b == -1 else rf.choice(["before_bar", "on_bar", "after_bar"]), "m": None, "op": "c19.raise", "a": {}})
     program.sort(key=lambda o: (o["s"], o["bar"], PHASE_ORDER.index(o["phase"])))
     order = list(range(ns))
     if rs.random() < 0.6:
@@ -119,6 +125,8 @@ def generate(seed: int, tier: str = "quick") -> dict:
             faults.append({"kind": "worker_reuse"})
     if noisy:
         faults.append({"kind": "noisy_neighbour"})
+    if failing is not None:
+        faults.append({"kind": "strategy_raises"})
     sc = {"property": ID, "seed": seed, "world": world, "strategies": strategies, "program": program, "sched": sched, "faults": faults}
     if real_pool:
         sc["real_pool"] = True
@@ -304,6 +312,9 @@ class ScriptStrategy(Strategy):
         for i, o in enumerate(self.program):
             if o["bar"] != bar or o["phase"] != phase:
                 continue
+            if o["op"] == "c19.raise":
+                self.ops_log.append({"i": i, "op": o["op"], "status": "raised"})
+                raise RuntimeError("scripted failure of strategy " + self.name)
             fn = OPS.get(o["op"])
             if fn is None:
                 raise HarnessError(f"unknown op {o['op']}")
